@@ -120,7 +120,13 @@ func (f *fakeEngine) do(ctx context.Context, method string, args Event, fn func(
 	g := f.es.g
 	f.es.mu.Unlock()
 	args["node"] = f.node
-	return g.Do(ctx, "engine", method, args, false, fn)
+	// like the real engine clients (HTTP / gRPC), a call made under a context that is already done fails with its error
+	return g.Do(ctx, "engine", method, args, false, func() error {
+		if ctx != nil && ctx.Err() != nil {
+			return ctx.Err()
+		}
+		return fn()
+	})
 }
 
 func (f *fakeEngine) find(id string) (*Container, error) {
